@@ -53,6 +53,8 @@ def build(tier, seed):
     for name, n in fams:
         for dt in ((0.01,) if quick else (0.01, 1.0)):
             cases.append({'fam': name, 'n': n, 'dt': dt, 'tier': tier})
+    for xi in (0.0, 0.02):
+        cases.append({'kind': 'seq', 'xi': xi, 'n': 1500 if quick else 4000, 'tier': tier})
     return {
         'cases': cases,
         'rule': 'all non-zero records over {-1,0,1} of length 2..%d (+ named long families hat/step/alternating, not counted as '
@@ -63,7 +65,7 @@ def build(tier, seed):
         'bounds': {'alphabet': [-1, 0, 1], 'max_len': L, 'dt': dts, 'T_over_dt': Q_RATIO if quick else T_RATIO,
                    'xi': Q_XI if quick else T_XI, 'long_families': fams},
         'required_classes': ['T<6dt', 'T>=6dt', 'T<dt', 'xi=0', 'xi>=0.9', 'leading-zero', 'multi-period', 'long-family',
-                             'entry:response_series', 'entry:nigam', 'entry:object', 'entry:object-reused', 'entry:object-defaults', 'dtype-variant', 'period-dtype-variant'],
+                             'entry:response_series', 'entry:nigam', 'entry:object', 'entry:object-reused', 'entry:object-defaults', 'dtype-variant', 'period-dtype-variant', 'request-sequence', 'period-array-edited-in-place'],
         'assumptions': ['oracle: 40-digit closed-form per-step solution (mpmath), witnessed by a longdouble evaluation and by the ODE residual',
                         'dt, T/dt and xi only on the finite menus; record values in {-1,0,1}',
                         'errors are normalised by the peak of the exact series; where that fails, by the peak of the exact continuous-time '
@@ -87,7 +89,94 @@ def entry_points(rec, dt, periods, xi, shared):
         yield 'object-defaults', lambda: eqsig.AccSignal(a, dt, response_times=p).response_series()
 
 
+def compare_with_oracle(r, claim, sub, out, rec, dt, periods, xi):
+    """u and v rows of `out` against the 40-digit solution for every positive period of `periods` (tolerance of the statement relative to the
+    peak of the exact continuous-time response); a leading zero period: zero rows and the sign-flipped record."""
+    n = len(rec)
+    recf = np.array(rec, dtype=float)
+    try:
+        u, v, a3 = (np.asarray(x, dtype=float) for x in out)
+        assert u.shape == v.shape == a3.shape == (len(periods), n), 'shapes %r %r %r' % (u.shape, v.shape, a3.shape)
+    except Exception as e:
+        r.fail(claim + '.shape', sub, 'expected three arrays of shape (%d, %d): %s' % (len(periods), n, e), observed=out)
+        return
+    for j, p_ in enumerate(periods):
+        s2 = dict(sub, row=j)
+        if p_ == 0:
+            r.expect(claim + '.leading-zero', s2, j == 0 and bool(np.all(u[0] == 0) and np.all(v[0] == 0))
+                     and bool(np.all(np.abs(a3[0] + recf) <= 1e-15 * float(np.max(np.abs(recf))))),
+                     'row of T = 0 is not (0, 0, -record)', observed=(u[0], v[0], a3[0]))
+            continue
+        U, V = ref.exact_series(rec, dt, p_, xi)
+        uf, vf = ref.to_float(U), ref.to_float(V)
+        tol = ref.tolerance(dt, p_, n)
+        cp = ref.continuous_peaks_f64(rec, dt, p_, xi, uf, vf)
+        for nm, got, ex_f, cpk in (('u', u[j], uf, float(cp[0])), ('v', v[j], vf, float(cp[1]))):
+            r.n_cmp += 1
+            if not np.all(np.isfinite(got)):
+                r.fail(claim + '.' + nm, s2, 'non-finite value in the %s series' % nm, observed=got)
+                continue
+            d = float(np.max(np.abs(got - ex_f)))
+            if d > tol * cpk + 4e-16 * float(np.max(np.abs(ex_f))):
+                r.fail(claim + '.' + nm, s2, '%s differs from the exact solution by %.3e (= %.3g x tolerance %.3e x peak %.3e)'
+                       % (nm, d, d / (tol * cpk) if cpk > 0 else float('inf'), tol, cpk), observed=got, expected=ex_f)
+
+
+NEAR = 1 + 4e-7
+
+
+def run_sequences(case):
+    """Requests that follow each other in one process / on one object.  (a) time steps and periods that agree to six significant figures
+    without being equal (0.01 and 0.01 (1 + 4e-7); 1/120 and 0.00833333; 1/3 and 0.333333), each answered for its own values: over ~150
+    lightly damped cycles the phase of a response computed with the neighbour's step or period is off by 50 x the stated tolerance.
+    (b) the caller's period array edited in place between two requests (doubled; first entry set to 0), same array object."""
+    r = Res()
+    xi = case['xi']
+    n = case['n']
+    rec = [0.0, 1.0, -0.5] + [0.0] * (n - 3)
+    a = np.array(rec, dtype=float)
+    r.nontrivial += 1
+    r.cls('request-sequence')
+    reqs = [(0.01, 0.1), (0.01 * NEAR, 0.1), (0.01, 0.1 * NEAR), (0.01, 0.1), (1.0 / 120, 1.0 / 3), (0.00833333, 1.0 / 3), (1.0 / 120, 0.333333),
+            (0.00833333, 0.333333)]
+    objs = {}
+    for k, (dt, T) in enumerate(reqs):
+        for ename in ('response_series', 'object-per-dt'):
+            sub = {'sequence': 'near-equal steps and periods', 'request': k, 'dt': dt, 'T': T, 'xi': xi, 'n': n, 'entry': ename}
+            r.states += 1
+            if ename == 'response_series':
+                ok, out = r.call('sequence', sub, sdof.response_series, a, dt, np.array([T]), xi)
+            else:
+                if dt not in objs:
+                    objs[dt] = eqsig.AccSignal(a, dt)
+                ok, out = r.call('sequence', sub, objs[dt].response_series, np.array([T]), xi)
+            if ok:
+                compare_with_oracle(r, 'sequence', sub, out, rec, dt, [T], xi)
+    # (b) one period array, edited in place by the caller between requests
+    dt = 0.01
+    short = rec[:200]
+    a2 = np.array(short, dtype=float)
+    for ename in ('response_series', 'object'):
+        p = np.array([0.1, 0.25])
+        asig = eqsig.AccSignal(a2, dt)
+        for k, edit in enumerate((None, lambda: p.__imul__(2.0), lambda: p.__setitem__(0, 0.0), lambda: p.__setitem__(0, 0.07))):
+            if edit is not None:
+                edit()
+            sub = {'sequence': 'period array edited in place between requests', 'request': k, 'periods_now': p.tolist(), 'xi': xi, 'entry': ename}
+            r.states += 1
+            r.cls('period-array-edited-in-place')
+            if ename == 'response_series':
+                ok, out = r.call('sequence', sub, sdof.response_series, a2, dt, p, xi)
+            else:
+                ok, out = r.call('sequence', sub, asig.response_series, p, xi)
+            if ok:
+                compare_with_oracle(r, 'sequence', sub, out, short, dt, p.tolist(), xi)
+    return r
+
+
 def run_case(case):
+    if case.get('kind') == 'seq':
+        return run_sequences(case)
     r = Res()
     quick = case['tier'] == 'quick'
     dt = case['dt']
